@@ -15,10 +15,14 @@ namespace vp {
 // microseconds since the virtual epoch; starts well above 0 so that "now - 5s" stays positive
 extern int64_t g_vnowUs;
 static const int64_t VEPOCH_US = 1700000000LL * 1000000LL;
-inline void vclockReset() { g_vnowUs = VEPOCH_US; }
-inline void vclockAdvanceUs(int64_t us) { g_vnowUs += us; }
-inline void vclockAdvanceMs(int64_t ms) { g_vnowUs += ms * 1000; }
-inline int64_t vclockMs() { return g_vnowUs / 1000; }
+// relaxed atomics: in the free-running ThreadSanitizer harness client threads read the clock while
+// the bus thread advances it
+inline int64_t vclockGet() { return __atomic_load_n(&g_vnowUs, __ATOMIC_RELAXED); }
+inline void vclockSet(int64_t v) { __atomic_store_n(&g_vnowUs, v, __ATOMIC_RELAXED); }
+inline void vclockReset() { vclockSet(VEPOCH_US); }
+inline void vclockAdvanceUs(int64_t us) { vclockSet(vclockGet() + us); }
+inline void vclockAdvanceMs(int64_t ms) { vclockSet(vclockGet() + ms * 1000); }
+inline int64_t vclockMs() { return vclockGet() / 1000; }
 }  // namespace vp
 
 #ifdef VCLOCK_IMPL
@@ -26,28 +30,29 @@ namespace vp { int64_t g_vnowUs = VEPOCH_US; }
 
 extern "C" {
 time_t time(time_t* t) {
-  time_t v = (time_t)(vp::g_vnowUs / 1000000);
+  time_t v = (time_t)(vp::vclockGet() / 1000000);
   if (t) *t = v;
   return v;
 }
 int clock_gettime(clockid_t, struct timespec* ts) {
-  ts->tv_sec = (time_t)(vp::g_vnowUs / 1000000);
-  ts->tv_nsec = (long)((vp::g_vnowUs % 1000000) * 1000);
+  int64_t now = vp::vclockGet();
+  ts->tv_sec = (time_t)(now / 1000000);
+  ts->tv_nsec = (long)((now % 1000000) * 1000);
   return 0;
 }
 int usleep(useconds_t us) {
-  vp::g_vnowUs += us;
+  vp::vclockAdvanceUs(us);
   return 0;
 }
 int nanosleep(const struct timespec* req, struct timespec*) {
-  vp::g_vnowUs += (int64_t)req->tv_sec * 1000000 + req->tv_nsec / 1000;
+  vp::vclockAdvanceUs((int64_t)req->tv_sec * 1000000 + req->tv_nsec / 1000);
   return 0;
 }
 #ifdef VCLOCK_COND
 // single-threaded harness: nobody can signal, so a timed wait always runs into its deadline
 int pthread_cond_timedwait(pthread_cond_t*, pthread_mutex_t*, const struct timespec* abstime) {
   int64_t dl = (int64_t)abstime->tv_sec * 1000000 + abstime->tv_nsec / 1000;
-  if (dl > vp::g_vnowUs) vp::g_vnowUs = dl;
+  if (dl > vp::vclockGet()) vp::vclockSet(dl);
   return ETIMEDOUT;
 }
 #endif
